@@ -59,7 +59,7 @@ func VP_C10_Cli() {
 		if zzvp.Choose(3) == 2 {
 			n = []string{"head", "Head"}[zzvp.Choose(2)] // legal branch names that look like HEAD
 		} else {
-			n = zzvp.Str("b"+string(rune('0'+i)), 1+zzvp.Choose(zzvp.Param("namelen", 2)), "a-zA-Z0-9_.:% ")
+			n = zzvp.Str("b"+string(rune('0'+i)), 1+zzvp.Choose(zzvp.Param("namelen", 2)), "a-zA-Z0-9_.:% \n")
 			zzvp.Assume(n != "." && n != "..")
 		}
 		zzvp.Assume(n != "main")
@@ -79,7 +79,7 @@ func VP_C10_Cli() {
 	if zzvp.Choose(3) == 2 {
 		q = []string{"head", "Head", "HEAD"}[zzvp.Choose(3)]
 	} else {
-		q = zzvp.Str("q", 1+zzvp.Choose(zzvp.Param("qlen", zzvp.Param("namelen", 2))), "a-zA-Z0-9_.:% -")
+		q = zzvp.Str("q", 1+zzvp.Choose(zzvp.Param("qlen", zzvp.Param("namelen", 2))), "a-zA-Z0-9_.:% \n-")
 		zzvp.Assume(q[0] != '-' && q != "." && q != "..")
 	}
 	_, qExists := before.get(q)
